@@ -815,6 +815,110 @@ func (g *apiGen) lateGrowthGroupMod() string {
 	return gm
 }
 
+// ctStateFlowMod: an ADD flow-mod matching on ct_state built by a random sequence (2..6 calls, repetition allowed, any
+// order) of the 16 "+flag" / "-flag" builder methods
+func (g *apiGen) ctStateFlowMod() string {
+	r := g.c.rng
+	st := g.v()
+	g.add("%s=NewCTStates()", st)
+	names := []string{"New", "Est", "Rel", "Rpl", "Inv", "Trk", "SNAT", "DNAT"}
+	for k := 2 + r.Intn(5); k > 0; k-- {
+		pre := "Set"
+		if r.Intn(2) == 0 {
+			pre = "Unset"
+		}
+		g.add("$%s.%s%s()", st, pre, names[r.Intn(8)])
+	}
+	f := g.v()
+	g.add("%s=NewCTStateMatchField($%s)", f, st)
+	mt := g.v()
+	g.add("%s=NewMatch()", mt)
+	g.add("$%s.AddField(*$%s)", mt, f)
+	fm := g.v()
+	g.add("%s=NewFlowMod()", fm)
+	g.add("$%s.Xid=%d", fm, g.edge(0xffffffff))
+	g.add("$%s.Command=0", fm)
+	g.add("$%s.Match=*$%s", fm, mt)
+	return fm
+}
+
+// helloElements: a hello with 1..3 version-bitmap elements of 0..4 bitmaps each (elements with an even number of bitmaps
+// are padded on the wire; the stored Length is whatever the application left there)
+func (g *apiGen) helloElements() string {
+	r := g.c.rng
+	v := g.v()
+	g.add("%s=NewHello(4)", v)
+	g.add("$%s.Xid=%d", v, g.edge(0xffffffff))
+	var els []string
+	for n := 1 + r.Intn(3); n > 0; n-- {
+		var bms []string
+		k := r.Intn(5)
+		for j := 0; j < k; j++ {
+			bms = append(bms, fmt.Sprint(g.edge(0xffffffff)))
+		}
+		els = append(els, fmt.Sprintf("HelloElemVersionBitmap(HelloElemHeader(1,%d),[%s])", 4+4*k, strings.Join(bms, ",")))
+	}
+	g.add("$%s.Elements=[%s]", v, strings.Join(els, ","))
+	return v
+}
+
+// learnFlowMod: an ADD flow-mod whose apply-actions instruction holds a learn action with immediate ("from value") specs
+func (g *apiGen) learnFlowMod() string {
+	la := g.v()
+	g.add("%s=%s", la, g.learnTerm())
+	in := g.v()
+	g.add("%s=NewInstrApplyActions()", in)
+	g.add("$%s.AddAction($%s,0)", in, la)
+	fm := g.v()
+	g.add("%s=NewFlowMod()", fm)
+	g.add("$%s.Xid=%d", fm, g.edge(0xffffffff))
+	g.add("$%s.Command=0", fm)
+	m := g.match(1)
+	g.add("$%s.Match=*$%s", fm, m)
+	g.add("$%s.AddInstruction($%s)", fm, in)
+	return fm
+}
+
+// bundleAddSwallow: a bundle-add with properties around a message whose own decoder reads to the end of what it is
+// given (error message with data, packet-in, hello): the embedded message must stop at its own length
+func (g *apiGen) bundleAddSwallow() (string, bool) {
+	r := g.c.rng
+	m := g.v()
+	kind := r.Intn(3)
+	switch kind {
+	case 0:
+		g.add("%s=NewErrorMsg()", m)
+		g.add("$%s.Xid=%d", m, g.edge(0xffffffff))
+		g.add("$%s.Type=%d", m, r.Intn(14))
+		g.add("$%s.Code=%d", m, r.Intn(16))
+		d := g.v()
+		g.add("%s=u.Buffer(%s)", d, g.bytes(1+r.Intn(40)))
+		g.add("$%s.Data=*$%s", m, d)
+	case 1:
+		g.add("%s=NewHello(4)", m)
+		g.add("$%s.Xid=%d", m, g.edge(0xffffffff))
+	default:
+		g.add("%s=NewPacketIn()", m)
+		g.add("$%s.Xid=%d", m, g.edge(0xffffffff))
+		g.add("$%s.BufferId=%d", m, g.edge(0xffffffff))
+		g.add("$%s.TotalLen=%d", m, g.edge(0xffff))
+		g.add("$%s.Reason=%d", m, r.Intn(3))
+		g.add("$%s.TableId=%d", m, g.edge(0xfe))
+		g.add("$%s.Cookie=%d", m, g.edge(^uint64(0)))
+	}
+	ba := g.v()
+	props := []string{}
+	for k := 1 + r.Intn(2); k > 0; k-- {
+		props = append(props, fmt.Sprintf("BundlePropertyExperimenter(65535,0,%d,%d,x)", g.edge(0xffffffff), g.edge(0xffffffff)))
+	}
+	g.add("%s=BundleAdd(%d,x0000,%d,~,[%s])", ba, g.edge(0xffffffff), r.Intn(4), strings.Join(props, ","))
+	g.add("$%s.Message=$%s", ba, m)
+	v := g.v()
+	g.add("%s=NewBundleAdd($%s)", v, ba)
+	g.vendorXid(v)
+	return v, kind == 1
+}
+
 // sharedArgs: ONE caller-owned byte slice (an address) is handed to two field constructors of the same match, once
 // exact and once under a mask that does not cover all of its bits: encoding one field must not change what the other
 // field, built from the same slice, encodes to (nor the caller's slice)
@@ -919,6 +1023,21 @@ func init() {
 		g.emit(cs)
 		sa := g.sharedArgs()
 		g.emit(sa)
+		for k := 0; k < 3; k++ {
+			cf := g.ctStateFlowMod()
+			g.emit(cf)
+		}
+		hl := g.helloElements()
+		g.emit(hl)
+		lf := g.learnFlowMod()
+		g.emit(lf)
+		// (error messages / packet-ins are not controller-originated: round trip only, no grammar oracle)
+		bs, ctl := g.bundleAddSwallow()
+		if ctl {
+			g.emit(bs)
+		} else {
+			g.emitAs("rtparse", bs)
+		}
 		lg := g.lateGrowth()
 		g.emitAs("apix", lg)
 		lp := g.lateGrowthPacketOut()
